@@ -4,7 +4,12 @@
    IEEE binary64 bit patterns decoded exactly to integer multiples of 2^-1074, so every
    comparison is integer arithmetic and no floating-point axiom is used. [run c te i t qs st]
    = outcomes of the requests qs (first index i, issued from time t on, run ending at te)
-   on the draw stream st, and the unconsumed rest of the stream. *)
+   on the draw stream st, and the unconsumed rest of the stream; every request is polled as
+   soon as it is created. The decision block of the real layer runs at the FIRST POLL of the
+   future, so the general form is [run_polls c te ps st]: ps is the list of first polls
+   (request index, call() instant, poll instant, request) in the order in which they happen;
+   this is what run_script executes (C19_script_runs_polls), on the schedule [polls] of the
+   harness. The *_polls theorems hold for every list of first polls. *)
 From TR Require Import Lib.Base Model.Chaos Proof.Chaos.
 
 (* The decisions (which draws are logged, error injected, injected latency) and the draws
@@ -49,7 +54,8 @@ Proof. exact error_skips_inner. Qed.
 Print Assumptions C19_error_skips_inner.
 
 (* both rates 0 (or -0, or clamped from below 0, or no error injector): no draw, no
-   injection, the inner service is called at once, exactly once, result unchanged *)
+   injection, the inner service is called at once, exactly once, result unchanged and
+   delivered when the inner service answers (q_lat q ms later) *)
 Theorem C19_transparent_at_zero :
   forall c te i t qs st,
     erate c = Some 0 -> lrate c = Some 0 ->
@@ -57,9 +63,9 @@ Theorem C19_transparent_at_zero :
       d_kinds (o_dec o) = [] /\ d_bits (o_dec o) = [] /\ d_err (o_dec o) = false /\
       d_delay (o_dec o) = None /\
       o_ev_err o = 0 /\ o_ev_lat o = 0 /\ o_ev_pass o = 1 /\
-      (o_t_issue o <= te ->
-       o_inner o = true /\ o_t_inner o = o_t_issue o /\ o_t_done o = o_t_issue o /\
-       o_res_kind o = (if q_ik q =? 0 then 0 else 1) /\ o_res_val o = q_iv q))
+      (o_t_issue o <= te -> o_inner o = true /\ o_t_inner o = o_t_issue o) /\
+      (o_t_issue o + q_lat q <= te ->
+       o_t_done o = o_t_issue o + q_lat q /\ o_res_kind o = q_kind q /\ o_res_val o = q_iv q))
       qs (fst (run c te i t qs st)) /\
     snd (run c te i t qs st) = st.
 Proof. exact transparent_at_zero. Qed.
@@ -89,15 +95,33 @@ Theorem C19_latency_bounds :
 Proof. exact run_latency_bounds. Qed.
 Print Assumptions C19_latency_bounds.
 
-(* bounds are truncated to whole milliseconds; rates are clamped to [0,1] (or NaN) *)
+(* bounds are truncated to whole milliseconds and SATURATED at u64::MAX ms
+   (`u64::try_from(as_millis()).unwrap_or(u64::MAX)`), rates are clamped to [0,1] (or NaN); a bound v
+   of the script is v microseconds (v < 2^64) or v - 2^64 nanoseconds; dur_floor_ms is the exact
+   truncation (Duration::as_millis), dur_ms = min (dur_floor_ms) (2^64 - 1) *)
 Theorem C19_config_truncation :
-  forall inj eb lb min_us max_us,
-    min_ms (mk_config inj eb lb min_us max_us) = min_us / 1000 /\
-    max_ms (mk_config inj eb lb min_us max_us) = max_us / 1000 /\
-    (forall v, erate (mk_config inj eb lb min_us max_us) = Some v -> 0 <= v <= f64_one) /\
-    (forall v, lrate (mk_config inj eb lb min_us max_us) = Some v -> 0 <= v <= f64_one).
+  forall flags eb lb minv maxv,
+    min_ms (mk_config flags eb lb minv maxv) = dur_ms minv /\
+    max_ms (mk_config flags eb lb minv maxv) = dur_ms maxv /\
+    (forall v, erate (mk_config flags eb lb minv maxv) = Some v -> 0 <= v <= f64_one) /\
+    (forall v, lrate (mk_config flags eb lb minv maxv) = Some v -> 0 <= v <= f64_one).
 Proof. exact config_truncation. Qed.
 Print Assumptions C19_config_truncation.
+
+Theorem C19_bounds_in_microseconds :
+  forall v, 0 <= v < 2 ^ 64 -> dur_ms v = v / 1000.
+Proof. exact dur_ms_micros. Qed.
+Print Assumptions C19_bounds_in_microseconds.
+
+Theorem C19_bounds_no_wrap :
+  forall v, dur_floor_ms v < 2 ^ 64 -> dur_ms v = dur_floor_ms v.
+Proof. exact dur_ms_nowrap. Qed.
+Print Assumptions C19_bounds_no_wrap.
+
+Theorem C19_bounds_saturate :
+  forall v, (2 ^ 64 - 1 <= dur_floor_ms v -> dur_ms v = 2 ^ 64 - 1) /\ 0 <= dur_ms v <= 2 ^ 64 - 1.
+Proof. exact dur_ms_sat_range. Qed.
+Print Assumptions C19_bounds_saturate.
 
 (* which draws are made, in which order: [error roll iff error rate > 0] then [latency roll
    only if latency rate > 0 and no error] then [delay entry iff latency injected]; the RNG
@@ -120,3 +144,169 @@ Theorem C19_draw_discipline :
     length (d_bits d) = length (d_kinds d).
 Proof. exact run_draw_discipline. Qed.
 Print Assumptions C19_draw_discipline.
+
+(* ======== runs as lists of first polls (what run_script executes) ======== *)
+
+Theorem C19_script_runs_polls :
+  forall s,
+    run_script s =
+    let c := mk_config (zn s 0) (zn s 1) (zn s 2) (zn s 3) (zn s 4) in
+    let n := Z.to_nat (zn s 7) in
+    let qs := requests_of s n in
+    let t_end := fold_left (fun a q => a + Z.max 0 (q_gap q)) qs 0 + Z.max 0 (zn s 6) in
+    let cs := calls 0 0 qs in
+    let os := fst (run_polls c t_end (polls cs [] 0) (skipn (8 + 3 * n) s)) in
+    [3] ++ flat_map (enc_call os) cs ++
+    [Z.of_nat (length (flat_map (fun po => d_bits (o_dec (snd po))) os))] ++
+    flat_map (fun po => d_bits (o_dec (snd po))) os.
+Proof. exact script_runs_polls. Qed.
+Print Assumptions C19_script_runs_polls.
+
+(* [run] is the special case in which every request is polled as soon as it is created *)
+Theorem C19_run_refines_polls :
+  forall c te i t qs st,
+    fst (run c te i t qs st) =
+      map snd (fst (run_polls c te (map (fun p => at_poll (p_call p) p) (calls i t qs)) st)) /\
+    snd (run c te i t qs st) =
+      snd (run_polls c te (map (fun p => at_poll (p_call p) p) (calls i t qs)) st).
+Proof. exact run_refines_polls. Qed.
+Print Assumptions C19_run_refines_polls.
+
+Theorem C19_polls_immediate :
+  forall cs tl,
+    Forall (fun p => q_mode (p_req p) = 0) cs ->
+    polls cs [] tl = map (fun p => at_poll (p_call p) p) cs.
+Proof. exact polls_immediate. Qed.
+Print Assumptions C19_polls_immediate.
+
+(* decisions and draws consumed are a function of the configuration, the draw stream and
+   the NUMBER of first polls: not of which requests are polled, when, in which order they
+   were created, their payloads, the inner outcomes or the length of the run *)
+Theorem C19_deterministic_polls :
+  forall c te te' ps ps' st,
+    length ps = length ps' ->
+    map (fun po => o_dec (snd po)) (fst (run_polls c te ps st)) =
+    map (fun po => o_dec (snd po)) (fst (run_polls c te' ps' st)) /\
+    snd (run_polls c te ps st) = snd (run_polls c te' ps' st) /\
+    map (fun po => o_dec (snd po)) (fst (run_polls c te ps st)) = fst (decisions c (length ps) st).
+Proof. exact deterministic_polls. Qed.
+Print Assumptions C19_deterministic_polls.
+
+(* "the order of requests" is the order of FIRST POLLS: the k-th first poll gets the k-th decision *)
+Theorem C19_decisions_follow_first_polls :
+  forall c te ps st,
+    map (fun po => (p_idx (fst po), o_dec (snd po))) (fst (run_polls c te ps st)) =
+    combine (map p_idx ps) (fst (decisions c (length ps) st)).
+Proof. exact decisions_follow_first_polls. Qed.
+Print Assumptions C19_decisions_follow_first_polls.
+
+(* a future that is never polled consumes nothing: on the harness's schedule the decisions
+   are those of as many stream positions as there are requests that are ever polled *)
+Theorem C19_unpolled_consume_nothing :
+  forall c te cs st,
+    map (fun po => o_dec (snd po)) (fst (run_polls c te (polls cs [] 0) st)) =
+      fst (decisions c (length (filter (fun p => q_mode (p_req p) <? 2) cs)) st) /\
+    snd (run_polls c te (polls cs [] 0) st) =
+      snd (decisions c (length (filter (fun p => q_mode (p_req p) <? 2) cs)) st).
+Proof. exact unpolled_consume_nothing. Qed.
+Print Assumptions C19_unpolled_consume_nothing.
+
+(* the only assumption about the generator, named: the draw stream is SOME function of the seed *)
+Theorem C19_seeded_lockstep :
+  forall (gen : Z -> list Z) c seed te te' ps ps',
+    length ps = length ps' ->
+    map (fun po => o_dec (snd po)) (fst (run_polls c te ps (gen seed))) =
+    map (fun po => o_dec (snd po)) (fst (run_polls c te' ps' (gen seed))).
+Proof. exact seeded_lockstep. Qed.
+Print Assumptions C19_seeded_lockstep.
+
+Theorem C19_lockstep_compositional_polls :
+  forall c te ps1 ps2 st,
+    run_polls c te (ps1 ++ ps2) st =
+    let (os1, st1) := run_polls c te ps1 st in
+    let (os2, st2) := run_polls c te ps2 st1 in
+    (os1 ++ os2, st2).
+Proof. exact run_polls_app. Qed.
+Print Assumptions C19_lockstep_compositional_polls.
+
+Theorem C19_error_skips_inner_polls :
+  forall c te ps st p o,
+    In (p, o) (fst (run_polls c te ps st)) ->
+    d_err (o_dec o) = true ->
+    o_inner o = false /\ o_t_inner o = -1 /\ o_res_kind o = 1 /\ o_res_val o = err_fn (p_idx p) /\
+    o_t_done o = o_t_issue o /\ o_t_issue o = p_poll p /\
+    d_delay (o_dec o) = None /\ o_ev_err o = 1 /\ o_ev_lat o = 0 /\ o_ev_pass o = 0.
+Proof. exact error_skips_inner_polls. Qed.
+Print Assumptions C19_error_skips_inner_polls.
+
+Theorem C19_transparent_at_zero_polls :
+  forall c te ps st,
+    erate c = Some 0 -> lrate c = Some 0 ->
+    Forall (fun po =>
+      let q := p_req (fst po) in let o := snd po in
+      (d_kinds (o_dec o) = [] /\ d_bits (o_dec o) = [] /\ d_err (o_dec o) = false /\
+       d_delay (o_dec o) = None /\
+       o_ev_err o = 0 /\ o_ev_lat o = 0 /\ o_ev_pass o = 1 /\
+       (o_t_issue o <= te -> o_inner o = true /\ o_t_inner o = o_t_issue o) /\
+       (o_t_issue o + q_lat q <= te ->
+        o_t_done o = o_t_issue o + q_lat q /\ o_res_kind o = q_kind q /\ o_res_val o = q_iv q)) /\
+      o_t_issue o = p_poll (fst po))
+      (fst (run_polls c te ps st)) /\
+    snd (run_polls c te ps st) = st.
+Proof. exact transparent_at_zero_polls. Qed.
+Print Assumptions C19_transparent_at_zero_polls.
+
+Theorem C19_always_fails_at_one_polls :
+  forall c te ps st,
+    custom c = true -> erate c = Some f64_one ->
+    Forall (fun b => exists v, f64_val b = Some v /\ 0 <= v < f64_one) st ->
+    Forall (fun po => d_err (o_dec (snd po)) = true /\ o_inner (snd po) = false /\
+                      o_res_kind (snd po) = 1 /\ o_res_val (snd po) = err_fn (p_idx (fst po)) /\
+                      d_kinds (o_dec (snd po)) = [0]) (fst (run_polls c te ps st)).
+Proof. exact always_fails_at_one_polls. Qed.
+Print Assumptions C19_always_fails_at_one_polls.
+
+Theorem C19_latency_bounds_polls :
+  forall c te ps st p o d,
+    In (p, o) (fst (run_polls c te ps st)) ->
+    d_delay (o_dec o) = Some d ->
+    (forall z, d_range (o_dec o) = Some z -> min_ms c <= z <= max_ms c) ->
+    Z.min (min_ms c) (max_ms c) <= d <= Z.max (min_ms c) (max_ms c) /\
+    d_err (o_dec o) = false /\
+    o_t_issue o = p_poll p /\
+    (o_inner o = true -> o_t_inner o = p_poll p + d) /\
+    (p_poll p + d <= te -> o_inner o = true).
+Proof. exact latency_bounds_polls. Qed.
+Print Assumptions C19_latency_bounds_polls.
+
+(* the property's clause "injected latency lies within [min_latency, max_latency]" with the TRUE
+   bounds of the configured Durations, for ALL bounds. fmin, fmax: the bounds truncated to whole ms
+   (Duration::as_millis). The layer expresses the delay with Duration::from_millis(u64), so it cannot
+   sleep longer than u64::MAX ms and saturates both bounds there. What holds, exactly:
+   the delay lies between the saturated bounds (either order); it never exceeds the larger true bound;
+   it is at least the smaller true bound, or u64::MAX ms if that bound is larger still; for bounds
+   below 2^64 ms it lies within the true bounds; with min_latency >= u64::MAX ms it is exactly
+   u64::MAX ms (584 million years: the request stays pending). *)
+Theorem C19_latency_within_configured_bounds :
+  forall flags eb lb minv maxv te ps st p o d,
+    let c := mk_config flags eb lb minv maxv in
+    let fmin := dur_floor_ms minv in
+    let fmax := dur_floor_ms maxv in
+    let smin := Z.min fmin (2 ^ 64 - 1) in
+    let smax := Z.min fmax (2 ^ 64 - 1) in
+    In (p, o) (fst (run_polls c te ps st)) ->
+    d_delay (o_dec o) = Some d ->
+    (forall z, d_range (o_dec o) = Some z -> smin <= z <= smax) ->
+    Z.min smin smax <= d <= Z.max smin smax /\
+    d <= Z.max fmin fmax /\
+    Z.min (Z.min fmin fmax) (2 ^ 64 - 1) <= d /\
+    (fmin < 2 ^ 64 -> fmax < 2 ^ 64 -> Z.min fmin fmax <= d <= Z.max fmin fmax) /\
+    (2 ^ 64 - 1 <= fmin -> d = 2 ^ 64 - 1).
+Proof. exact latency_bounds_true. Qed.
+Print Assumptions C19_latency_within_configured_bounds.
+
+Theorem C19_draw_discipline_polls :
+  forall c te ps st p o,
+    In (p, o) (fst (run_polls c te ps st)) -> kinds_ok c (o_dec o).
+Proof. exact draw_discipline_polls. Qed.
+Print Assumptions C19_draw_discipline_polls.
